@@ -60,3 +60,23 @@ func VerifC32ParseTokens() {
 	rt.Reach("parsed")
 	rt.Assert("parse/tokens-no-runtime-error", kind != 2)
 }
+
+// vclassTokens: fragments for the body of a class constant
+var vclassTokens = []string{`""`, ":", "1", "a", "A", "(", ")", "function", "{", "}", ","}
+
+// C32 parser on class bodies: "class { t1 t2 t3 }" for every choice of three fragments from an
+// 11-entry vocabulary (empty member names, missing values, nested braces, methods): returns or
+// reports an ordinary error, never a Go runtime error.
+//
+//symgo:harness prop=C32 tier=quick shards=8 timeout=400 bounds=class_bodies_of_3_fragments_from_an_11-entry_vocabulary
+func VerifC32ParseClassBody() {
+	src := "class {"
+	for i := 0; i < 3; i++ {
+		src += " " + vclassTokens[rt.Pick("t"+string(rune('0'+i)), len(vclassTokens))]
+	}
+	src += " }"
+	rt.Observe("src", src)
+	kind := rt.TryKind(func() { Constant(src) })
+	rt.Reach("parsed")
+	rt.Assert("parse/class-body-no-runtime-error", kind != 2)
+}
